@@ -3,11 +3,11 @@ import random
 import gens, blk, compcases as cc
 from capi import Lib, Buf
 
-THEOREMS = ["C09_fast_generic_cap", "C09_fast_extState", "C09_fast_extState_fastReset", "C09_hc_emitter_cap", "C09_hc_emitter_encoding", "C09_hc_mid_bad_sizes"]
-CORRESPONDENCE = [cc.MID_CORR,
+THEOREMS = ["C09_fast_generic_cap", "C09_fast_extState", "C09_fast_extState_fastReset", "C09_hc_emitter_cap", "C09_hc_emitter_encoding", "C09_hc_mid_bad_sizes", "C09_hc_chain_capacity", "C09_hc_mid_capacity"]
+CORRESPONDENCE = [cc.MID_CORR, cc.CHAIN_CORR, cc.CHAIN_SEARCH_CORR,
                   "Model.FastApi == liblz4 for every capacity tried: return value, bytes, and the model's write high-water mark <= capacity",
                   "Model.HcEmit.encodeSequence == LZ4HC_encodeSequence (static function reached by #include): return code, bytes, new op/ip/anchor, for literal and match lengths on every length-encoding boundary x every room value around both limit checks"]
-ORACLES = ["block", "mid"]
+ORACLES = ["block", "mid", "chain"]
 RULE = ("inputs weighted to incompressible / barely compressible data, long literal runs and long matches straddling 255-multiples; "
         "EVERY capacity 0..bound+1 for inputs <= 48 bytes, capacities dense around each sequence boundary of the bound-capacity output and random otherwise; "
         "entry points {default, fast(accel), extState, fastReset history, HC levels, HC extState, fast_continue, HC_continue}; destination buffer has EXACTLY the "
@@ -15,25 +15,26 @@ RULE = ("inputs weighted to incompressible / barely compressible data, long lite
         "(0 < ret <= cap and the bytes decode to the input by the extracted specification decoder); negative / > LZ4_MAX_INPUT_SIZE sizes => 0. "
         "non-trivial = 0 < ret at a capacity below the bound, or failure at capacity >= (needed size - 3); distinct = (input, entry, parameter, capacity)")
 TRUSTED = ["reads outside the source buffer are only observed (ASan, exact-size buffers), not proved",
-           "HC and streaming entry points: direct oracle only"]
+           "HC levels 1-2 (LZ4MID) and 3-9 (hash chain) one-shot entry points are modelled and tied; HC levels 10-12 and streaming entry points: direct oracle only"]
 ASSUMPTIONS = ["64-bit little-endian target"]
 
 def build(tier):
     from vlib import build_lib
-    return {"lib": build_lib("default"), "hcemit": cc.hcemit_lib(), "midstate": cc.midstate_lib()}
+    return {"lib": build_lib("default"), "hcemit": cc.hcemit_lib(), "midstate": cc.midstate_lib(), "chainstate": cc.chainstate_lib()}
 
 def gen_cases(tier, seed):
     rng = random.Random(seed * 131 + 9)
     n = {"quick": 64, "search": 256, "thorough": 600}[tier]
     cases = [{"bseed": rng.randrange(1 << 48), "count": 6, "mode": ["small", "small", "mid", "mid", "big", "bad", "emit", "litrun"][i % 8]} for i in range(n)]
     cases += cc.mid_gen_cases(rng, tier, 0.5)
+    cases += cc.chain_gen_cases(rng, tier, 0.5)
     return cases
 
 def worker_init(ctx):
     import ctypes
     st = blk.worker_init(ctx)
     st["hcemit"] = ctypes.CDLL(ctx["hcemit"])
-    return cc.mid_worker(st, ctx)
+    return cc.chain_worker(cc.mid_worker(st, ctx), ctx)
 
 def seq_boundaries(out):
     """output offsets at which a sequence of the block ends"""
@@ -124,9 +125,25 @@ def mid_judge(st):
         return None
     return judge
 
+def chain_judge(st):
+    def judge(kind, src, cap, level, r, consumed, out):
+        n = len(src)
+        if r < 0 or r > max(cap, 0):
+            return "returned %d with capacity %d" % (r, cap)
+        if kind == "fr" and cap >= cc.bound(n) and r <= 0:
+            return "failed (%d) although dstCapacity %d >= LZ4_compressBound(%d)" % (r, cap, n)
+        if r > 0:
+            err = blk.decode_checks(st, src[:consumed], out, strict=(kind != "ds"), caps=[consumed])
+            if err:
+                return "output within the capacity does not decode: " + err
+        return None
+    return judge
+
 def run_case(st, case):
     if case.get("mode") == "hcmid":
         return cc.run_mid_case(st, case, mid_judge(st))
+    if case.get("mode") == "hcchain":
+        return cc.run_chain_case(st, case, chain_judge(st))
     rng = random.Random(case["bseed"])
     res = cc.new_res()
     lib = st["lib"]
